@@ -29,6 +29,7 @@ FORCED = PARAMS.get("forced_style", "python")  # the --style value when MODE == 
 MODE = PARAMS.get("mode", "none")  # which of the mutually exclusive style options is given
 # none | style | force_dot_license | fallback_dot_license | skip_unrecognised
 LINES = PARAMS.get("lines", "none")  # none | single | multi
+OUTS_ALLOWED = PARAMS.get("outcomes", [0, 1, 2])
 
 
 class FS:
@@ -92,7 +93,11 @@ def _b(x):
 def run_annotate(e0, o0, s0, e1, o1, s1, skip_existing, no_replace):
     specs = []
     for i, (e, o, s) in enumerate(((e0, o0, s0), (e1, o1, s1))[:NPATHS]):
-        specs.append((EXTS[_pick_from(e, [0, 1, 2, 3, 4])], OUTCOMES[_pick_from(o, [0, 1, 2])], _b(s)))
+        if i == 0 and "first_ext" in PARAMS:
+            ext = EXTS[PARAMS["first_ext"]]
+        else:
+            ext = EXTS[_pick_from(e, [0, 1, 2, 3, 4])]
+        specs.append((ext, OUTCOMES[_pick_from(o, OUTS_ALLOWED)], _b(s)))
     FS.files = {}
     FS.touched = []
     paths = []
@@ -275,7 +280,7 @@ def _mem(x, allowed):
 
 def _ann(e0: int, o0: int, s0: bool, e1: int, o1: int, s1: bool, skip_existing: bool, no_replace: bool) -> bool:
     """
-    pre: _mem(e0, [0, 1, 2, 3, 4]) and _mem(o0, [0, 1, 2]) and (_mem(e1, [0, 1, 2, 3, 4]) and _mem(o1, [0, 1, 2]) if NPATHS > 1 else (e1 == 0 and o1 == 0))
+    pre: (e0 == 0 if "first_ext" in PARAMS else _mem(e0, [0, 1, 2, 3, 4])) and _mem(o0, OUTS_ALLOWED) and (_mem(e1, [0, 1, 2, 3, 4]) and _mem(o1, OUTS_ALLOWED) if NPATHS > 1 else (e1 == 0 and o1 == 0)) and (no_replace == False or not PARAMS.get("fix_replace"))
     post: _
     """
     why = story(e0, o0, s0, e1, o1, s1, skip_existing, no_replace)[0]
@@ -284,7 +289,7 @@ def _ann(e0: int, o0: int, s0: bool, e1: int, o1: int, s1: bool, skip_existing: 
 
 def _ann_reach(e0: int, o0: int, s0: bool, e1: int, o1: int, s1: bool, skip_existing: bool, no_replace: bool) -> bool:
     """
-    pre: _mem(e0, [0, 1, 2, 3, 4]) and _mem(o0, [0, 1, 2]) and (_mem(e1, [0, 1, 2, 3, 4]) and _mem(o1, [0, 1, 2]) if NPATHS > 1 else (e1 == 0 and o1 == 0))
+    pre: (e0 == 0 if "first_ext" in PARAMS else _mem(e0, [0, 1, 2, 3, 4])) and _mem(o0, OUTS_ALLOWED) and (_mem(e1, [0, 1, 2, 3, 4]) and _mem(o1, OUTS_ALLOWED) if NPATHS > 1 else (e1 == 0 and o1 == 0)) and (no_replace == False or not PARAMS.get("fix_replace"))
     post: False
     """
     return story(e0, o0, s0, e1, o1, s1, skip_existing, no_replace)[0] is None
